@@ -355,6 +355,11 @@ def encode_blamed(t, v, label):
     # attribute to the component when the component alone shows the same failure
     if t["k"] == "array" and label.startswith("array.el.") and isinstance(v, list):
         for x in v:
+            try:
+                R.enc(t["el"], _materialise(t["el"], x))
+                continue          # an in-domain element is not to blame
+            except Exception:
+                pass
             d2 = check_encode_bad(t["el"], x, label[len("array.el."):])
             if d2:
                 return d2
@@ -394,6 +399,41 @@ def fuzz_types():
                  bits={"x": [4, 0], "y": [4, 7]}, private=["ZZZZZZZZZZh"])]
         TYPES_FOR_FUZZ = ts
     return TYPES_FOR_FUZZ
+
+
+ZERO_WIDTH = [(T("array", len=0, el=T("USINT"), via="factory"), "USINT[0]"), (T("nbytes", n=0), "n_bytes(0)"),
+              (T("array", len=None, el=T("array", len=0, el=T("UINT"), via="factory"), via="factory"), "UINT[0][None]")]
+
+
+def check_zero_width(zi, buf):
+    """an unbounded array of elements that consume no bytes: decode must end (the number of elements is undefined: DataError)"""
+    import signal
+    from pycomm3.exceptions import DataError as _DE
+
+    class _Spin(BaseException):
+        pass
+
+    def _alarm(*a):
+        raise _Spin()
+    zt, label = ZERO_WIDTH[zi]
+    t = T("array", len=None, el=zt, via="factory")
+    old_h = signal.signal(signal.SIGALRM, _alarm)
+    signal.setitimer(signal.ITIMER_REAL, 3.0)
+    try:
+        try:
+            C.lib_decode(t, bytes(buf))
+        finally:
+            signal.setitimer(signal.ITIMER_REAL, 0)
+            signal.signal(signal.SIGALRM, old_h)
+    except _Spin:
+        return [Disc("nonterminating.decode.zero-width-element", f"{label}[None].decode({bytes(buf)!r}) did not return within 3 s")]
+    except MemoryError:
+        return [Disc("nonterminating.decode.zero-width-element", f"{label}[None].decode({bytes(buf)!r}) allocated without bound")]
+    except _DE:
+        return []
+    except Exception as e:
+        return [Disc(f"decode.foreign.{type(e).__name__}.zero-width", f"{label}[None].decode({bytes(buf)!r}): {e!r}")]
+    return []
 
 
 def plan(tier):
@@ -487,37 +527,11 @@ def run_job(ctx, job):
                 for d in discs:
                     ctx.violation(d, "decode1", {"t": t, "buf": buf})
         # zero-width element types: an unbounded array of them has no defined length; decode must end (with DataError), not spin
-        import signal
-
-        class _Spin(BaseException):
-            pass
-
-        def _alarm(*a):
-            raise _Spin()
-        for zt, label in ((T("array", len=0, el=T("USINT"), via="factory"), "USINT[0]"), (T("nbytes", n=0), "n_bytes(0)"),
-                          (T("array", len=None, el=T("array", len=0, el=T("UINT"), via="factory"), via="factory"), "UINT[0][None]")):
-            t = T("array", len=None, el=zt, via="factory")
+        for zi in range(len(ZERO_WIDTH)):
             for buf in (b"", b"\x01\x02\x03"):
-                old_h = signal.signal(signal.SIGALRM, _alarm)
-                signal.setitimer(signal.ITIMER_REAL, 3.0)
-                discs = []
-                try:
-                    try:
-                        C.lib_decode(t, buf)
-                    finally:
-                        signal.setitimer(signal.ITIMER_REAL, 0)
-                        signal.signal(signal.SIGALRM, old_h)
-                except _Spin:
-                    discs.append(Disc("nonterminating.decode.zero-width-element", f"{label}[None].decode({buf!r}) did not return within 3 s"))
-                except MemoryError:
-                    discs.append(Disc("nonterminating.decode.zero-width-element", f"{label}[None].decode({buf!r}) allocated without bound"))
-                except Exception as e:
-                    from pycomm3.exceptions import DataError as _DE
-                    if not isinstance(e, _DE):
-                        discs.append(Disc(f"decode.foreign.{type(e).__name__}.zero-width", f"{label}[None].decode({buf!r}): {e!r}"))
-                ctx.case(("zero-width", label, len(buf)), True, ["unbound-zero-width"])
-                for d in discs:
-                    ctx.violation(d, "decode1", {"t": t, "buf": buf})
+                ctx.case(("zero-width", zi, len(buf)), True, ["unbound-zero-width"])
+                for d in check_zero_width(zi, buf):
+                    ctx.violation(d, "zerowidth", {"i": zi, "buf": buf})
         # element types whose wire size is not a plain fixed-width number: fixed-capacity strings (LEN + data area),
         # DATE_AND_TIME (6 bytes), addresses, revisions; every count of whole elements from 0 to 90
         others = [(T("DATE_AND_TIME"), lambda i: [(i * 0x01010101 + 5) & 0xFFFFFFFF, (i * 257 + 3) & 0xFFFF]),
@@ -631,6 +645,8 @@ def split_fuzz_input(data):
 
 
 def replay(ctx, kind, case):
+    if kind == "zerowidth":
+        return check_zero_width(case["i"], case["buf"])
     if kind == "encode":
         return encode_blamed(case["t"], case["v"], case["label"])
     if kind == "decode":
